@@ -241,6 +241,15 @@ fn item_head(it: &Item) -> String {
     if let Some(b) = it.as_bool() { pl.push(format!("b:{b}")); }
     if let Some(d) = it.as_datetime() { pl.push(show_datetime(d)); }
     if let Some(a) = it.as_array() { pl.push(format!("n:{}", a.len())); }
+    if let Some(tl) = it.as_table_like() {
+        // the view's len / is_empty next to the container's own len
+        let own = match (it.as_table(), it.as_inline_table()) {
+            (Some(t), _) => t.len(),
+            (_, Some(t)) => t.len(),
+            _ => usize::MAX,
+        };
+        pl.push(format!("l:{}:{}{}", tl.len(), own, if tl.is_empty() { "e" } else { "" }));
+    }
     format!("{}/{}/{}", us(it.type_name()), flags, plus_join(pl))
 }
 
